@@ -115,6 +115,11 @@ Inc(v) ==
     /\ (~IsNf) => v <= 3
     /\ cur' = KInc(cur, v)
     /\ UNCHANGED <<P, tgt, want, shape, aux, dg>>
+\* (q,p) side: two units into one canonical pair keep the pair degree even (so that even monomials are frequent)
+Inc2(j, a, b) ==
+    /\ IsNf /\ want >= 0 /\ CurDeg + 2 <= want
+    /\ cur' = KInc(KInc(cur, j + a), j + b)
+    /\ UNCHANGED <<P, tgt, want, shape, aux, dg>>
 IncK(v, s) ==
     /\ Family = "walk" /\ want >= 0 /\ CurDeg = want
     /\ AbsI(cur[3 + v] + s) <= KTerm
@@ -135,6 +140,7 @@ Next ==
     \/ PickNfMono
     \/ \E d \in 0 .. 8 : StartTerm(d)
     \/ \E v \in 1 .. 6 : Inc(v)
+    \/ \E j \in 1 .. 3, ab \in {<<0, 0>>, <<0, 3>>, <<3, 3>>} : Inc2(j, ab[1], ab[2])
     \/ \E v \in 1 .. 3, s \in {-1, 1} : IncK(v, s)
     \/ \E c \in Coefs : SetCoef(c)
     \/ NextPoly
